@@ -39,6 +39,13 @@ BATCHES = [
     (("u2", "u1", "u2"), ()),
     (("c1", "c2"), ("c1", "c2")),
 ]
+THOROUGH_BATCHES = BATCHES + [
+    (("u1", "u2", "u3"), ()),
+    (("u1", "c1", "u1", "c1"), ("c1",)),
+    (("c1", "u1", "u2", "u1"), ("c1",)),
+    (("u3", "u2", "u1", "u3"), ()),
+    (("c1", "c2", "u1", "c1"), ("c1", "c2")),
+]
 ORDERED_MAPS = ("map", "imap", "starmap")
 UNORDERED_MAPS = ("uimap", "imap_unordered", "amap", "map_async", "uimap_unordered")
 
@@ -140,7 +147,7 @@ def rule_r1_r2(ctx: Ctx) -> None:
         fails: dict[str, tuple] = {}
         undecided = []
         used_maps = set()
-        for batch, cached in BATCHES:
+        for batch, cached in (BATCHES if ctx.tier != "thorough" else THOROUGH_BATCHES):
             try:
                 results, state = _evaluator_model(ctx, cls, f, batch, cached)
             except Budget:
